@@ -5,6 +5,30 @@ use std::collections::BTreeMap;
 
 pub type Coins = Vec<(String, u128)>; // (denom, amount), duplicates and zeros allowed
 
+/// Witness files are JSON, whose numbers end at 64 bits here: amounts travel as decimal strings (plain numbers are
+/// still read, for witnesses written before).
+pub mod coins_serde {
+    use serde::{Deserialize, Deserializer, Serialize, Serializer};
+    #[derive(Deserialize)]
+    #[serde(untagged)]
+    enum Amount {
+        Num(u64),
+        Text(String),
+    }
+    pub fn serialize<S: Serializer>(c: &super::Coins, s: S) -> Result<S::Ok, S::Error> {
+        c.iter().map(|(d, a)| (d.clone(), a.to_string())).collect::<Vec<(String, String)>>().serialize(s)
+    }
+    pub fn deserialize<'de, D: Deserializer<'de>>(d: D) -> Result<super::Coins, D::Error> {
+        let v: Vec<(String, Amount)> = Vec::deserialize(d)?;
+        v.into_iter()
+            .map(|(d, a)| match a {
+                Amount::Num(n) => Ok((d, n as u128)),
+                Amount::Text(t) => t.parse::<u128>().map(|n| (d, n)).map_err(serde::de::Error::custom),
+            })
+            .collect()
+    }
+}
+
 #[derive(Clone, Debug, Default, PartialEq, Eq)]
 pub struct Ledger {
     pub accounts: BTreeMap<String, BTreeMap<String, u128>>,
